@@ -113,6 +113,17 @@ def one(acc, d, driver, data, hist, idx):
                 return "marker-effect", f"rejected marker value left traces: {sorted(set(after) ^ set(before))[:4]}"
             if "f" in mc["files"]:
                 return "marker-effect", "rejected marker value left a visible node"
+            # the marker as a whole-value assignment to an existing one-byte dataset
+            mc["files"].create_dataset("mk", data=np.void(b"x"))
+            try:
+                mc["files/mk"][()] = np.void(b"\x7f")
+                stored = True
+            except Exception:
+                stored = False
+            acc.count("marker_cases")
+            if stored or "mk" not in mc["files"] or read_bytes(mc["files/mk"]) != b"x":
+                return "marker-stored", (f"assigning the deletion-marker value to an existing dataset (ds[()] = ...) {'returned silently' if stored else 'was refused'}; "
+                                         f"the dataset is {'gone' if 'mk' not in mc['files'] else 'there'} afterwards")
             return None
         if not packed:
             return "pack-failed", f"pack_file raised {type(err).__name__}: {err}"
@@ -235,11 +246,18 @@ def cross_copy(acc, d, sub, data):
     from metador_core.ih5.container import IH5Record
     (d / "x").mkdir()
     marker = data == b"\x7f"
-    for via in ("container", "raw"):
-        rec = IH5Record(d / "x" / f"t{via}", "w")
+    from metador_core.packer.utils import pack_file
+    for via in ("container", "raw", "container-with-meta"):
+        rec = IH5Record(d / "x" / f"t{via.replace('-', '')}", "w")
         try:
             tgt = MetadorContainer(rec)
             tgt["keep/k"] = 1
+            if via == "container-with-meta" and not marker:
+                # the target holds ANOTHER embedded file at the very path the source has in its own container
+                decoy = d / "x" / "decoy.bin"
+                decoy.write_bytes(b"decoy-content-of-other-length")
+                tgt.create_group("files")
+                pack_file(tgt["files"], decoy, target="f")
             rec.commit_patch()
             rec.create_patch()
             before = {k: str(v) for k, v in tocoracle.raw_nodes(rec).items()}
@@ -247,6 +265,8 @@ def cross_copy(acc, d, sub, data):
             try:
                 if via == "container":
                     tgt.copy(sub.mc["files/f"], "in", without_meta=True)
+                elif via == "container-with-meta":
+                    tgt.copy(sub.mc["files/f"], "in")
                 else:
                     rec.copy(sub.raw["files/f"], "in")
                 err = None
@@ -262,12 +282,17 @@ def cross_copy(acc, d, sub, data):
                 continue
             if err is not None:
                 return "cross-copy-failed", f"copy of the embedded file into an IH5 record ({via}) raised {type(err).__name__}: {err}"
+            if via == "container-with-meta":
+                m = tgt["in"].meta.get("core.file")
+                if m is None or m.contentSize != len(data) or hashlib.sha256(data).hexdigest() not in str(m.sha256):
+                    return "meta-of-other-file", (f"embedded file copied with its metadata from another container: the copy holds {len(data)} bytes, its core.file metadata says "
+                                                  f"{None if m is None else (m.contentSize, str(m.sha256)[:20])}")
             for stage in ("written", "committed", "reopened"):
                 if stage == "committed":
                     rec.commit_patch()
                 elif stage == "reopened":
                     rec.close()
-                    rec = IH5Record(d / "x" / f"t{via}", "r")
+                    rec = IH5Record(d / "x" / f"t{via.replace('-', '')}", "r")
                 if "in" not in rec:
                     return "lost", f"cross-container copy ({via}) vanished at stage {stage}"
                 got = read_bytes(rec["in"])
